@@ -17,7 +17,7 @@
 From Coq Require Import ZArith QArith List Bool Lia.
 From VL Require Import Prelude.PyDict Model.Divisor Model.HighestAverages Model.Biprop Model.BipropLoop
      Proofs.Dict_proofs Proofs.Divisor_proofs Proofs.Biprop_proofs Proofs.Biprop_steps Proofs.BipropRow_proofs
-     Proofs.BipropLoop_proofs Proofs.BipropInit_proofs Proofs.BipropProgress_proofs Proofs.BipropTerm_proofs Proofs.BipropFlow_proofs.
+     Proofs.BipropLoop_proofs Proofs.BipropInit_proofs Proofs.BipropProgress_proofs Proofs.BipropTerm_proofs Proofs.BipropFlow_proofs Proofs.BipropRefusal_proofs.
 Import ListNotations.
 Open Scope Z_scope.
 
@@ -277,6 +277,65 @@ Proof.
   intros d q k votes n pseats Hq0 Hq1 Hk Hd Hv Hn. exact (no_votes_infeasible d q k Hq1 Hk Hd votes Hv n Hn pseats).
 Qed.
 
+(* 5c. THE OTHER REFUSAL SITE - VotingSystemError "invalid adjustment coefficient" - IS JUSTIFIED AS WELL, for the two rounding
+       rules the evaluator supports (signpost_q = 0: D'Hondt, 1/2: Sainte-Lague): whenever the whole-loop model answers
+       [BP_refused a], no seat matrix with the district seats, the party seats (the tie-free HighestAverages answer) and
+       empty cells where there are no votes exists - with or without multipliers.  [dorder] lists exactly the districts
+       (the target dictionary has no foreign key).  Proof: with closed labels the coefficient is < 1 (a candidate equal to
+       1 is a tied cell the labelling search would have followed), so the refused coefficient is 0; then the labelled
+       districts hold more seats than they are due, all in the columns of the labelled parties, which have no votes
+       elsewhere: Hall's condition fails (Proofs/BipropRefusal_proofs.v).  Together with C07_no_votes_refusal_justified this is
+       the property's "refuses with a voting-system error only when no seat matrix with those marginals and zero cells
+       exists" for ALL inputs of the model *)
+Theorem C07_refusal_justified : forall d q k votes n tgt dorder fuel a,
+  (0 <= q)%Q -> (q < 1)%Q -> (q == 0 \/ q == 1 # 2)%Q -> (0 < k)%Q -> (forall z, d z == k * (inject_Z z + 1 - q))%Q ->
+  wf_votes votes -> (forall i j, 0 <= mget votes i j) -> 0 <= n ->
+  NoDup dorder -> incl (districts votes) dorder -> incl dorder (districts votes) ->
+  evaluate_core d q votes tgt dorder true n fuel = BP_refused a ->
+  exists pseats, ha_marginal d (party_totals votes) n = Some pseats /\
+    (forall M, ~ matrix_spec (districts votes) (parties votes) (fun i j => 0 <? mget votes i j)
+                             (fun i => dget_or tgt i 0) (fun j => dget_or pseats j 0) M) /\
+    (forall res, ~ biprop_spec d (districts votes) (parties votes) votes tgt pseats res).
+Proof.
+  intros d q k votes n tgt dorder fuel a Hq0 Hq1 Hq Hk Hd Hwf Hv Hn Hdo Hdo1 Hdo2 H.
+  destruct (evaluate_core_refused d q k Hq0 Hq1 Hq Hk Hd votes Hwf Hv n Hn dorder Hdo Hdo1 Hdo2 true tgt fuel a (or_introl eq_refl) H) as (pseats & Hp & Hinf).
+  exists pseats. split; [exact Hp|]. split; [exact Hinf|].
+  intros res S. apply (Hinf res). apply (spec_matrix d votes tgt pseats res Hv S).
+Qed.
+Theorem C07_total_refusal_justified : forall d q k votes n dorder fuel a,
+  (0 <= q)%Q -> (q < 1)%Q -> (q == 0 \/ q == 1 # 2)%Q -> (0 < k)%Q -> (forall z, d z == k * (inject_Z z + 1 - q))%Q ->
+  wf_votes votes -> (forall i j, 0 <= mget votes i j) -> 0 <= n ->
+  NoDup dorder -> incl (districts votes) dorder -> incl dorder (districts votes) ->
+  evaluate_total d q votes true n dorder fuel = BP_refused a ->
+  exists pseats dseats, ha_marginal d (party_totals votes) n = Some pseats /\
+    ha_marginal d (district_totals votes) n = Some dseats /\
+    (forall M, ~ matrix_spec (districts votes) (parties votes) (fun i j => 0 <? mget votes i j)
+                             (fun i => dget_or dseats i 0) (fun j => dget_or pseats j 0) M) /\
+    (forall res, ~ biprop_spec d (districts votes) (parties votes) votes dseats pseats res).
+Proof.
+  intros d q k votes n dorder fuel a Hq0 Hq1 Hq Hk Hd Hwf Hv Hn Hdo Hdo1 Hdo2 H.
+  destruct (evaluate_total_refused d q k Hq0 Hq1 Hq Hk Hd votes Hwf Hv n Hn dorder Hdo Hdo1 Hdo2 true fuel a (or_introl eq_refl) H) as (pseats & dseats & Hp & Hds & Hinf).
+  exists pseats, dseats. split; [exact Hp|]. split; [exact Hds|]. split; [exact Hinf|].
+  intros res S. apply (Hinf res). apply (spec_matrix d votes dseats pseats res Hv S).
+Qed.
+(* the step-level statement: from ANY state satisfying the loop invariant the refused coefficient is 0 (never >= 1) and the
+   refusal is justified *)
+Theorem C07_step_refusal_justified : forall q votes pseats tgt dorder s a,
+  (0 <= q)%Q -> (q < 1)%Q -> (q == 0 \/ q == 1 # 2)%Q -> wf_votes votes -> (forall i j, 0 <= mget votes i j) ->
+  NoDup dorder -> incl (districts votes) dorder -> incl dorder (districts votes) ->
+  BInv q votes pseats s -> bstep q votes tgt dorder s = Stop (BP_refused a) ->
+  (a == 0)%Q /\
+  forall M, ~ matrix_spec (districts votes) (parties votes) (fun i j => 0 <? mget votes i j)
+                          (fun i => dget_or tgt i 0) (fun j => dget_or pseats j 0) M.
+Proof.
+  intros q votes pseats tgt dorder s a Hq0 Hq1 Hq Hwf Hv Hdo Hdo1 Hdo2 I H. split.
+  - destruct (bstep_refused q votes tgt dorder s a H) as (_ & LD & LP & El & Hnu & Ha & Hc).
+    assert (Hov : NoDup (snd (unsat dorder (b_res s) tgt))) by (unfold unsat; cbn [snd]; apply NoDup_filter, Hdo).
+    pose proof (coef_lt_1 q Hq0 Hq1 Hq votes Hwf pseats s _ _ LD LP a I Hov El Hnu Ha) as Hlt.
+    apply orb_true_iff in Hc. destruct Hc as [Hc|Hc]; [apply Qeq_bool_iff, Hc|apply Qle_bool_iff in Hc; exfalso; apply (Qlt_not_le _ _ Hlt Hc)].
+  - exact (step_refused_infeasible q Hq0 Hq1 Hq votes Hwf Hv pseats tgt dorder Hdo Hdo1 Hdo2 s a I H).
+Qed.
+
 (* 6. the two configurations the evaluator supports *)
 Theorem C07_d_hondt_partial_correct : forall votes n dorder fuel res rho gamma,
   wf_votes votes -> (forall i j, 0 <= mget votes i j) -> 0 <= n ->
@@ -494,6 +553,17 @@ Example C07_example_fuel_bound :
   NoDup [1%positive; 2%positive].
 Proof. split; [vm_compute; reflexivity|]. split; [vm_compute; reflexivity|]. repeat constructor; simpl; intuition discriminate. Qed.
 
+(* the refusal theorem C07_refusal_justified is not vacuous: a district without votes that is due a seat - the model (like the
+   code: VotingSystemError "invalid adjustment coefficient 0" after two transfers' worth of updates) refuses, the party
+   marginal is tie-free, the iteration order lists exactly the districts *)
+Definition empty_district_votes : mat :=
+  [(1%positive, [(1%positive, 10); (2%positive, 20)]); (2%positive, [(1%positive, 0); (2%positive, 0)])].
+Example C07_example_refused :
+  evaluate_core d_hondt 0 empty_district_votes [(1%positive, 2); (2%positive, 1)] [1%positive; 2%positive] true 3 20 = BP_refused 0 /\
+  ha_marginal d_hondt (party_totals empty_district_votes) 3 = Some [(2%positive, 2); (1%positive, 1)] /\
+  districts empty_district_votes = [1%positive; 2%positive].
+Proof. vm_compute. repeat split. Qed.
+
 (* the refusal theorems are not vacuous: a matrix without votes whose party marginal is tie-free, refused by the model *)
 Example C07_example_no_votes :
   has_votes zero_votes = false /\ ha_marginal d_hondt (party_totals zero_votes) 1 = Some [(1%positive, 1)] /\
@@ -527,6 +597,9 @@ Print Assumptions C07_evaluate_total_partial_correct.
 Print Assumptions C07_evaluate_pinned_partial_correct.
 Print Assumptions C07_no_votes_refusal.
 Print Assumptions C07_no_votes_refusal_justified.
+Print Assumptions C07_refusal_justified.
+Print Assumptions C07_total_refusal_justified.
+Print Assumptions C07_step_refusal_justified.
 Print Assumptions C07_d_hondt_partial_correct.
 Print Assumptions C07_sainte_lague_partial_correct.
 Print Assumptions C07_all_zero_refuted.
